@@ -45,6 +45,9 @@ THEOREMS = [
     "Typedpy.C16.stubD_init_text_parses", "Typedpy.C16.stubD_helper_text_parses", "Typedpy.C16.stubD_init_text_accepted",
     "Typedpy.C16.stubD_diamond_example",
     "Typedpy.C16.fixed_diamond_names_example", "Typedpy.C16.stubD_sig_names_in_stub_reachable",
+    "Typedpy.C16.stubD_names_agree_reachable",
+    "Typedpy.C16.stubD_namesCovered_reachable",
+    "Typedpy.C16.C16_define_statement_holds",
 ]
 RULE = ("generated modules: 2-7 Structure classes (annotation and assignment style; inheritance from 1-2 earlier "
         "classes, Partial/Omit/Pick/Extend/AllFieldsRequired bases, ImmutableStructure; _required/_optional/"
